@@ -930,6 +930,13 @@ def gen_dispatch(facts):
                         raise TranslateError("%s: non-cfg attribute in body" % name)
                     acfg = c if acfg is None else ("all", [acfg, c])
                     q = ae + 1
+                if bodyt[q].text == "if" and acfg == ("flag", "cfavml_verif"):
+                    # verification hook (off in every modelled build): skip the guarded statement
+                    r = q + 1
+                    while bodyt[r].text != "{":
+                        r += 1
+                    q = match_close(bodyt, r) + 1
+                    continue
                 if bodyt[q].text == "if":
                     r = q + 1
                     while bodyt[r].text != "{":
